@@ -22,6 +22,8 @@ CHECKS = {
          "TLC model check of Server.tla + TLC behaviours replayed into the real servers + trace validation"),
  "C18": ("6", "RawUdp.tla (RFC 791/768/1071 frame layout, ones'-complement checksums, frame acceptance and payload extraction) model-checked in a small scope (writer frames verify under an independent receiver-side check; reader returns exactly the matching payloads); every frame written by the real BroadcastRawUDPConn and every result of reading harness-built frame sequences is validated by TLC against the same operators",
          "TLC model check of RawUdp.tla + trace validation of written frames and read sequences"),
+ "C19": ("6", "Label.tla: RFC 1035/4704 name-list decoder as a step machine (termination, totality, bounded work for every small byte string), encoder, and the Labels object (original bytes kept until the names change); every recorded rfc1035label FromBytes/ToBytes call, edit sequence on a parsed set, and decode through the DHCPv4/DHCPv6 options that carry names is validated by TLC under a three-way verdict (must accept / must reject / RFC-undefined)",
+         "TLC model check of Label.tla step machine + trace validation of decode/encode/edit calls"),
 }
 
 def main():
